@@ -1,8 +1,474 @@
-//! (stub) family `conc` - see CONTRIBUTING.md
-use anyhow::{bail, Result};
+//! C05 / C06 drivers: real threads over one Index with the stage-point hooks
+//! (searchlite_core::verif::point / Section).
+//!   mode stress : 2-4 writer threads (own handles) + optional compaction thread + reader thread,
+//!                 free running, perturbed by seeded yields/sleeps at every stage point.
+//!   mode sched  : a deterministic scheduler: every thread stops at every stage point and moves
+//!                 only when granted; schedules (sequences of thread names) come from TLC
+//!                 (--cases, MC_Conc simulation) or from the seeded RNG. A grant that does not
+//!                 make the thread reach its next point within a timeout is recorded as blocked
+//!                 (the thread waits on a real lock) and the schedule moves on.
+//! The merged event log (hook events in their global sequence order + harness call records)
+//! is judged by spec/Trace_Conc.tla.
 
-use crate::util::Args;
+use std::collections::{BTreeMap, HashMap, HashSet};
+use std::sync::{Arc, Condvar, Mutex};
+use std::time::Duration;
 
-pub fn main(_args: &Args) -> Result<()> {
-  bail!("family conc is not implemented yet")
+use anyhow::Result;
+use rand::Rng;
+use serde_json::{json, Value};
+
+use searchlite_core::api::types::StorageType;
+use searchlite_core::api::Index;
+use searchlite_core::verif;
+
+use crate::history::schema_family;
+use crate::util::*;
+
+fn doc_for(id: &str, ver: u64) -> Value {
+  json!({"_id": id, "body": format!("w{ver} common {id}"), "ver": ver})
+}
+
+fn id_ver(idx: &Index) -> std::result::Result<Vec<(String, u64)>, String> {
+  contents(idx)
+    .map(|l| l.into_iter().map(|(id, f)| (id, f.get("ver").and_then(|v| v.as_u64()).unwrap_or(0))).collect())
+    .map_err(|e| format!("{e:#}"))
+}
+
+fn idver_json(l: &[(String, u64)]) -> Value {
+  Value::Array(l.iter().map(|(i, v)| json!({"id": i, "ver": v})).collect())
+}
+
+// ------------------------------------------------------------------------------------------------
+// scheduler
+// ------------------------------------------------------------------------------------------------
+
+#[derive(Default)]
+struct SchedState {
+  allowed: HashMap<u64, usize>,
+  arrived: HashMap<u64, usize>,
+  done: HashSet<u64>,
+  gated: bool,
+}
+
+struct Sched {
+  st: Mutex<SchedState>,
+  cv: Condvar,
+}
+
+impl Sched {
+  fn new(gated: bool) -> Arc<Self> {
+    Arc::new(Self { st: Mutex::new(SchedState { gated, ..Default::default() }), cv: Condvar::new() })
+  }
+  /// called from the hook at every stage point
+  fn at_point(&self) {
+    let t = verif::thread_id();
+    let mut g = self.st.lock().unwrap();
+    if !g.gated {
+      return;
+    }
+    *g.arrived.entry(t).or_insert(0) += 1;
+    self.cv.notify_all();
+    loop {
+      let a = *g.arrived.get(&t).unwrap_or(&0);
+      let al = *g.allowed.get(&t).unwrap_or(&0);
+      if al >= a || !g.gated {
+        return;
+      }
+      g = self.cv.wait(g).unwrap();
+    }
+  }
+  fn finish(&self) {
+    let t = verif::thread_id();
+    let mut g = self.st.lock().unwrap();
+    g.done.insert(t);
+    self.cv.notify_all();
+  }
+  /// let thread t pass its current point; true if it reached the next point or finished
+  fn grant(&self, t: u64, timeout: Duration) -> bool {
+    let mut g = self.st.lock().unwrap();
+    if g.done.contains(&t) {
+      return false;
+    }
+    let before = *g.arrived.get(&t).unwrap_or(&0);
+    let al = g.allowed.entry(t).or_insert(0);
+    if *al < before {
+      *al = before;
+    } else {
+      // already allowed past its last arrival: the thread is running or blocked on a lock
+    }
+    self.cv.notify_all();
+    let deadline = std::time::Instant::now() + timeout;
+    loop {
+      if g.done.contains(&t) || *g.arrived.get(&t).unwrap_or(&0) > before {
+        return true;
+      }
+      let now = std::time::Instant::now();
+      if now >= deadline {
+        return false;
+      }
+      let (ng, _) = self.cv.wait_timeout(g, deadline - now).unwrap();
+      g = ng;
+    }
+  }
+  fn all_done(&self, n: usize) -> bool {
+    self.st.lock().unwrap().done.len() >= n
+  }
+  fn open_gates(&self) {
+    let mut g = self.st.lock().unwrap();
+    g.gated = false;
+    self.cv.notify_all();
+  }
+}
+
+// ------------------------------------------------------------------------------------------------
+// thread programs
+// ------------------------------------------------------------------------------------------------
+
+#[derive(Clone, Debug)]
+enum Step {
+  NewWriter,
+  Add(String, u64),
+  Delete(String),
+  Commit,
+  Rollback,
+  Compact,
+  Read,
+}
+
+fn step_json(s: &Step) -> Value {
+  match s {
+    Step::NewWriter => json!({"op": "new_writer", "id": "", "ver": 0}),
+    Step::Add(id, v) => json!({"op": "add", "id": id, "ver": v}),
+    Step::Delete(id) => json!({"op": "delete", "id": id, "ver": 0}),
+    Step::Commit => json!({"op": "commit", "id": "", "ver": 0}),
+    Step::Rollback => json!({"op": "rollback", "id": "", "ver": 0}),
+    Step::Compact => json!({"op": "compact", "id": "", "ver": 0}),
+    Step::Read => json!({"op": "read", "id": "", "ver": 0}),
+  }
+}
+
+struct ThreadOut {
+  name: String,
+  tid: u64,
+  /// per call: (step, ok, error text, reader contents)
+  calls: Vec<(Step, bool, String, Option<Vec<(String, u64)>>)>,
+}
+
+fn run_program(idx: Arc<Index>, name: String, prog: Vec<Step>, sched: Arc<Sched>) -> ThreadOut {
+  let tid = verif::thread_id();
+  verif::point("thread.start", &name);
+  let mut calls = Vec::new();
+  let mut writer = None;
+  for st in prog {
+    let r = std::panic::catch_unwind(std::panic::AssertUnwindSafe(|| -> (bool, String, Option<Vec<(String, u64)>>) {
+      match &st {
+        Step::NewWriter => match idx.writer() {
+          Ok(w) => {
+            writer = Some(w);
+            (true, String::new(), None)
+          }
+          Err(e) => (false, format!("{e:#}"), None),
+        },
+        Step::Add(id, v) => match writer.as_mut() {
+          Some(w) => match w.add_document(&doc_from_json(doc_for(id, *v))) {
+            Ok(_) => (true, String::new(), None),
+            Err(e) => (false, format!("{e:#}"), None),
+          },
+          None => (false, "no writer".into(), None),
+        },
+        Step::Delete(id) => match writer.as_mut() {
+          Some(w) => match w.delete_document(id) {
+            Ok(_) => (true, String::new(), None),
+            Err(e) => (false, format!("{e:#}"), None),
+          },
+          None => (false, "no writer".into(), None),
+        },
+        Step::Commit => match writer.as_mut() {
+          Some(w) => match w.commit() {
+            Ok(_) => (true, String::new(), None),
+            Err(e) => (false, format!("{e:#}"), None),
+          },
+          None => (false, "no writer".into(), None),
+        },
+        Step::Rollback => match writer.as_mut() {
+          Some(w) => match w.rollback() {
+            Ok(_) => (true, String::new(), None),
+            Err(e) => (false, format!("{e:#}"), None),
+          },
+          None => (false, "no writer".into(), None),
+        },
+        Step::Compact => match idx.compact() {
+          Ok(_) => (true, String::new(), None),
+          Err(e) => (false, format!("{e:#}"), None),
+        },
+        Step::Read => {
+          verif::point("harness.read_begin", &name);
+          let res = id_ver(&idx);
+          let out = match res {
+            Ok(c) => (true, String::new(), Some(c)),
+            Err(e) => (false, e, Some(Vec::new())),
+          };
+          verif::point("harness.read_end", &name);
+          out
+        }
+      }
+    }));
+    match r {
+      Ok((ok, err, c)) => calls.push((st, ok, err, c)),
+      Err(_) => calls.push((st, false, "PANIC".into(), None)),
+    }
+  }
+  drop(writer);
+  sched.finish();
+  ThreadOut { name, tid, calls }
+}
+
+fn setup_index(n_segments: usize, ver: &mut u64) -> Result<(Scratch, Arc<Index>, Vec<(String, u64)>)> {
+  let scratch = Scratch::new("conc");
+  let root = scratch.join("idx");
+  let schema = schema_from_json(schema_family(2));
+  let idx = Index::create(&root, schema, opts(&root, StorageType::Filesystem))?;
+  {
+    let mut w = idx.writer()?;
+    for s in 0..n_segments {
+      *ver += 1;
+      w.add_document(&doc_from_json(doc_for(&format!("s{s}"), *ver)))?;
+      w.commit()?;
+    }
+  }
+  let c = id_ver(&idx).map_err(|e| anyhow::anyhow!(e))?;
+  Ok((scratch, Arc::new(idx), c))
+}
+
+/// Emit the merged log of one scenario.
+fn emit(tr: &mut Tracer, scn: usize, mode: &str, initial: &[(String, u64)], outs: &[ThreadOut], events: Vec<verif::Event>,
+        blocked: &[Value], final_c: &std::result::Result<Vec<(String, u64)>, String>, reopen_c: &std::result::Result<Vec<(String, u64)>, String>) {
+  let names: BTreeMap<u64, String> = outs.iter().map(|o| (o.tid, o.name.clone())).collect();
+  tr.emit(json!({"ev": "reset", "scn": scn, "mode": mode, "initial": idver_json(initial),
+                 "threads": outs.iter().map(|o| o.name.clone()).collect::<Vec<_>>()}));
+  // k-th section enter of a thread belongs to its k-th sectioned call
+  let mut next_call: HashMap<u64, usize> = HashMap::new();
+  let mut next_read: HashMap<u64, usize> = HashMap::new();
+  for ev in events.iter().filter(|e| e.op == "point") {
+    let Some(name) = names.get(&ev.thread) else { continue };
+    let pt = ev.path.clone();
+    let detail = ev.path2.clone();
+    let out = outs.iter().find(|o| o.tid == ev.thread).unwrap();
+    let sectioned: Vec<&(Step, bool, String, Option<Vec<(String, u64)>>)> =
+      out.calls.iter().filter(|c| !matches!(c.0, Step::Read)).collect();
+    let reads: Vec<&(Step, bool, String, Option<Vec<(String, u64)>>)> =
+      out.calls.iter().filter(|c| matches!(c.0, Step::Read)).collect();
+    let is_section = pt.starts_with("writer.") || pt == "index.compact";
+    if is_section && detail.starts_with("enter") {
+      let k = *next_call.get(&ev.thread).unwrap_or(&0);
+      let call = sectioned.get(k).map(|c| step_json(&c.0)).unwrap_or(json!({"op": "unknown", "id": "", "ver": 0}));
+      let ok = sectioned.get(k).map(|c| c.1).unwrap_or(false);
+      tr.emit(json!({"ev": "enter", "t": name, "section": pt, "call": call, "ok": ok}));
+    } else if is_section && detail.starts_with("exit") {
+      *next_call.entry(ev.thread).or_insert(0) += 1;
+      tr.emit(json!({"ev": "exit", "t": name, "section": pt}));
+    } else if pt == "harness.read_begin" {
+      tr.emit(json!({"ev": "read_begin", "t": name}));
+    } else if pt == "harness.read_end" {
+      let k = *next_read.get(&ev.thread).unwrap_or(&0);
+      *next_read.entry(ev.thread).or_insert(0) += 1;
+      let (ok, err, c) = reads.get(k).map(|c| (c.1, c.2.clone(), c.3.clone().unwrap_or_default())).unwrap_or((false, "missing".into(), vec![]));
+      tr.emit(json!({"ev": "read_end", "t": name, "ok": ok, "err": err, "contents": idver_json(&c)}));
+    } else if pt != "thread.start" {
+      tr.emit(json!({"ev": "pt", "t": name, "name": pt}));
+    }
+  }
+  for o in outs {
+    for (i, c) in o.calls.iter().enumerate() {
+      if !c.1 {
+        tr.emit(json!({"ev": "call_failed", "t": o.name, "n": i, "call": step_json(&c.0), "err": c.2}));
+      }
+    }
+  }
+  for b in blocked {
+    tr.emit(b.clone());
+  }
+  let (fok, fc) = match final_c {
+    Ok(c) => (true, c.clone()),
+    Err(_) => (false, vec![]),
+  };
+  let (rok, rc) = match reopen_c {
+    Ok(c) => (true, c.clone()),
+    Err(_) => (false, vec![]),
+  };
+  tr.emit(json!({"ev": "final", "ok": fok, "contents": idver_json(&fc), "reopen_ok": rok, "reopen": idver_json(&rc)}));
+}
+
+fn programs(r: &mut rand::rngs::StdRng, n_writers: usize, compactor: bool, reader: bool, ver: &mut u64, calls: usize) -> Vec<(String, Vec<Step>)> {
+  let ids = ["a", "b", "c"];
+  let mut out = Vec::new();
+  for w in 0..n_writers {
+    let mut p = vec![Step::NewWriter];
+    for _ in 0..calls {
+      let roll = r.gen_range(0..100);
+      p.push(match roll {
+        0..=44 => {
+          *ver += 1;
+          Step::Add(pick(r, &ids).to_string(), *ver)
+        }
+        45..=59 => Step::Delete(pick(r, &ids).to_string()),
+        60..=89 => Step::Commit,
+        90..=94 => Step::Rollback,
+        _ => Step::NewWriter,
+      });
+    }
+    p.push(Step::Commit);
+    out.push((format!("w{}", w + 1), p));
+  }
+  if compactor {
+    out.push(("k1".to_string(), (0..r.gen_range(1..=3)).map(|_| Step::Compact).collect()));
+  }
+  if reader {
+    out.push(("r1".to_string(), (0..r.gen_range(1..=4)).map(|_| Step::Read).collect()));
+  }
+  out
+}
+
+fn run_scenario(scn: usize, seed: u64, mode: &str, schedule: Option<Vec<String>>, tr: &mut Tracer) -> Result<()> {
+  let mut r = rng(seed, 9_000_000 + scn as u64);
+  let mut ver = 0u64;
+  let (scratch, idx, initial) = setup_index(r.gen_range(1..=3), &mut ver)?;
+  let gated = mode == "sched";
+  let sched = Sched::new(gated);
+  let progs = if gated {
+    // fixed small programs (those of MC_Conc "mixed"): a writer, a compactor, a reader
+    ver += 3;
+    vec![
+      ("w1".to_string(), vec![Step::NewWriter, Step::Add("a".into(), ver - 2), Step::Commit, Step::Add("b".into(), ver - 1), Step::Commit]),
+      ("k1".to_string(), vec![Step::Compact]),
+      ("r1".to_string(), vec![Step::Read, Step::Read]),
+    ]
+  } else {
+    let n_writers = r.gen_range(2..=4);
+    let calls = r.gen_range(3..=8);
+    let with_k = chance(&mut r, 2, 3);
+    let with_r = chance(&mut r, 2, 3);
+    programs(&mut r, n_writers, with_k, with_r, &mut ver, calls)
+  };
+  // perturbation for free-running mode
+  let pseed = rand_u64(&mut r);
+  let sched_for_ctl = sched.clone();
+  let stress = mode == "stress";
+  verif::set_controller(Some(Arc::new(move |_name: &'static str, _detail: &str| {
+    if stress {
+      let t = verif::thread_id();
+      let n = verif::events_len() as u64;
+      let h = pseed ^ t.wrapping_mul(0x9E37_79B9_7F4A_7C15) ^ n.wrapping_mul(0xD1B5_4A32_D192_ED03);
+      match (h >> 7) % 8 {
+        0 | 1 => std::thread::yield_now(),
+        2 => std::thread::sleep(Duration::from_micros(200 + (h % 1500))),
+        _ => {}
+      }
+    } else {
+      sched_for_ctl.at_point();
+    }
+  })));
+  verif::start_recording();
+  let mut handles = Vec::new();
+  let (tx, rx) = std::sync::mpsc::channel::<(String, u64)>();
+  for (name, prog) in progs.iter().cloned() {
+    let idx2 = idx.clone();
+    let s2 = sched.clone();
+    let tx2 = tx.clone();
+    handles.push(std::thread::spawn(move || {
+      tx2.send((name.clone(), verif::thread_id())).unwrap();
+      run_program(idx2, name, prog, s2)
+    }));
+  }
+  let mut tids: BTreeMap<String, u64> = BTreeMap::new();
+  for _ in 0..progs.len() {
+    let (n, t) = rx.recv().unwrap();
+    tids.insert(n, t);
+  }
+  let mut blocked = Vec::new();
+  if gated {
+    let names: Vec<String> = progs.iter().map(|p| p.0.clone()).collect();
+    // wait until every thread reached its start gate
+    for n in names.iter() {
+      let t = tids[n];
+      let deadline = std::time::Instant::now() + Duration::from_secs(10);
+      loop {
+        if *sched.st.lock().unwrap().arrived.get(&t).unwrap_or(&0) >= 1 || std::time::Instant::now() > deadline {
+          break;
+        }
+        std::thread::sleep(Duration::from_millis(1));
+      }
+    }
+    let mut steps = 0usize;
+    let sch = schedule.unwrap_or_default();
+    let mut i = 0usize;
+    // threads whose last grant timed out (they wait on a real lock): not chosen again until
+    // some other thread made progress
+    let mut suspects: HashSet<String> = HashSet::new();
+    while !sched.all_done(progs.len()) && steps < 400 {
+      let name = if i < sch.len() {
+        sch[i].clone()
+      } else {
+        let live: Vec<&String> = names
+          .iter()
+          .filter(|n| !sched.st.lock().unwrap().done.contains(&tids[*n]) && !suspects.contains(*n))
+          .collect();
+        if live.is_empty() {
+          suspects.clear();
+          names[r.gen_range(0..names.len())].clone()
+        } else {
+          live[r.gen_range(0..live.len())].clone()
+        }
+      };
+      i += 1;
+      steps += 1;
+      let Some(&t) = tids.get(&name) else { continue };
+      if sched.st.lock().unwrap().done.contains(&t) || (i <= sch.len() && suspects.contains(&name)) {
+        continue;
+      }
+      let progressed = sched.grant(t, Duration::from_millis(100));
+      if progressed {
+        suspects.clear();
+      } else if !sched.st.lock().unwrap().done.contains(&t) {
+        suspects.insert(name.clone());
+        blocked.push(json!({"ev": "blocked", "t": name, "step": steps}));
+      }
+    }
+    sched.open_gates();
+  }
+  let outs: Vec<ThreadOut> = handles.into_iter().map(|h| h.join().expect("thread")).collect();
+  verif::stop_recording();
+  verif::set_controller(None);
+  let events = verif::take_events();
+  let final_c = id_ver(&idx);
+  let root = scratch.join("idx");
+  drop(idx);
+  let reopen_c = Index::open(opts(&root, StorageType::Filesystem)).map_err(|e| format!("{e:#}")).and_then(|i| id_ver(&i));
+  emit(tr, scn, mode, &initial, &outs, events, &blocked, &final_c, &reopen_c);
+  Ok(())
+}
+
+pub fn main(args: &Args) -> Result<()> {
+  let seed = args.u64("seed", 1);
+  let mode = args.str("mode", "stress");
+  let out = args.str("out", "/verif/out/conc.ndjson");
+  let n_scn = args.usize("scenarios", 20);
+  let mut tr = Tracer::create(std::path::Path::new(&out))?;
+  let mut scn = 0usize;
+  if let Some(cases) = args.get("cases") {
+    for line in std::fs::read_to_string(cases)?.lines().filter(|l| !l.trim().is_empty()) {
+      let v: Value = serde_json::from_str(line)?;
+      let sch: Vec<String> = v["sched"].as_array().map(|a| a.iter().filter_map(|x| x.as_str().map(|s| s.to_string())).collect()).unwrap_or_default();
+      run_scenario(scn, seed, "sched", Some(sch), &mut tr)?;
+      scn += 1;
+    }
+  }
+  for _ in 0..n_scn {
+    run_scenario(scn, seed, &mode, None, &mut tr)?;
+    scn += 1;
+  }
+  let lines = tr.finish();
+  println!("{}", json!({"scenarios": scn, "events": lines, "out": out}));
+  Ok(())
 }
